@@ -375,7 +375,8 @@ def rule_scan_stops_with_cause(ctx):
             def _dur_param(x):      # the duration handed in as a parameter (`time_to_idle: &Option<Duration>`)
                 while isinstance(x, tuple) and x and x[0] in ('payload',):
                     x = x[1]
-                return isinstance(x, tuple) and x and x[0] == 'param' and x[1] <= bsc.argc and 'Option<std::time::Duration>' in bsc.local_ty(x[1])['s']
+                return isinstance(x, tuple) and x and x[0] == 'param' and x[1] <= bsc.argc and \
+                    bsc.local_ty(x[1])['s'].replace('&', '').replace("'a ", '').replace('mut ', '').endswith('Option<std::time::Duration>')
             dl = any(f['what'] == 'deadline' and f['state'] == 'not-expired' and kind in f['ts'] for f in facts) or \
                 any((has_field(x, (cfg,)) or _dur_param(x)) and not has_call(x, ('checked_add',)) for x in nones) or no_ts
             wm = flavour == 'unsync' or any(f['what'] == 'watermark' and f['state'] == 'valid' and kind in f['ts'] for f in facts) or \
